@@ -5,6 +5,7 @@
   * `itoa v`: `[]byte(strconv.Itoa(v))` by its SPECIFICATION (decimal digits, most significant first, `-` for negatives),
     not the library code.
   * `mk3n n c`: `make([]T, n, c)` when the capacity is never observed; `setContains`: membership in an `intSet`.
+  * `idxLL`: a checked read of a `[]string`; `hasPrefix`: `strings.HasPrefix`.
   * `utf8Byte c`: `string(rune(c))` of a byte by its specification.
   * `latin1Utf8 bs`: `charmap.ISO8859_1.NewDecoder().Bytes(bs)` by its specification: every byte is the code point of the
     same value, encoded as UTF-8 (one byte below 0x80, two bytes otherwise); the decoder never fails.
@@ -30,6 +31,16 @@ def mk3n (n c : Int) : Res (List Int) :=
 
 /-- `s.contains(n)` of an intSet (the list of the keys added) -/
 def setContains (s : List Int) (n : Int) : Bool := s.contains n
+
+/-- `tbl[i]` of a list of byte lists (a `[]string`), checked -/
+def idxLL (t : List (List Int)) (i : Int) : Res (List Int) :=
+  if i < 0 then .error oob else
+  match t[i.toNat]? with
+  | some r => .ok r
+  | none => .error oob
+
+/-- `strings.HasPrefix(s, p)` -/
+def hasPrefix (s p : List Int) : Bool := p.isPrefixOf s
 
 /-- `string(rune(c))` of a byte `c`: the UTF-8 encoding of the code point U+00cc -/
 def utf8Byte (b : Int) : List Int := if b < 128 then [b] else [192 + b / 64, 128 + b % 64]
